@@ -159,6 +159,14 @@ impl Ctx {
         // Every RandomState / fastrand use inside the repository reads this.
         std::env::set_var("RAD_RNG_SEED", seed.to_string());
         crate::panics::install();
+        // Replay-from-scratch builds and drops many medium-sized objects (sqlite page caches,
+        // bloom filters) per transition; without this glibc returns the memory to the kernel after
+        // every drop (madvise + page faults dominate the run time and serialise the threads).
+        unsafe {
+            libc::mallopt(libc::M_TRIM_THRESHOLD, 1 << 30);
+            libc::mallopt(libc::M_MMAP_THRESHOLD, 16 << 20);
+            libc::mallopt(libc::M_TOP_PAD, 64 << 20);
+        }
         Ctx { id, level, tier, seed, replay, started: Instant::now(), extra_args: extra }
     }
 
